@@ -1,5 +1,7 @@
 package floodnet
 
+import "fmt"
+
 func rep(op Op, n int) []Op {
 	out := make([]Op, n)
 	for i := range out {
@@ -58,7 +60,22 @@ func Witnesses(prop string) []*Case {
 			Ops: cat(ops(Op{K: "connect", A: 0, B: 1}, Op{K: "connect", A: 0, B: 3}, Op{K: "connect", A: 1, B: 2}, Op{K: "connect", A: 3, B: 2},
 				cidr(0, 1), ann(0), Op{K: "deliver", I: 0}, Op{K: "deliver", I: 1}, Op{K: "forget", A: 2, Origin: 0, Seq: 2},
 				Op{K: "deliver", I: 0}, Op{K: "deliver", I: 1}), drain(6), ops(Op{K: "connect", A: 2, B: 4}), drain(8))})
+		// boundary replay: O0-X1-Y2-K3 and O0-A4-R5-D6, max_hops 3 everywhere. Announcement #3 of O has reached K
+		// (exactly 3 hops) and A; R connects to K and is handed whatever K replays BEFORE A's copy arrives. K must not
+		// replay O's routes (the path would have 4 hops); R must accept A's copy, renew and forward it.
+		out = append(out, &Case{Name: "w14-boundary-replay", N: 7, Limits: []int{3, 3, 3, 3, 3, 3, 3}, Settle: true,
+			Ops: cat(ops(Op{K: "connect", A: 0, B: 1}, Op{K: "connect", A: 1, B: 2}, Op{K: "connect", A: 2, B: 3},
+				Op{K: "connect", A: 0, B: 4}, Op{K: "connect", A: 4, B: 5}, Op{K: "connect", A: 5, B: 6}, cidr(0, 1), ann(0)), drain(12),
+				ops(Op{K: "advance", D: 30}, ann(0), Op{K: "deliver", I: 0}, Op{K: "deliver", I: 1}, Op{K: "deliver", I: 1}, Op{K: "deliver", I: 0},
+					Op{K: "connect", A: 3, B: 5}, Op{K: "deliver", I: 1}, Op{K: "deliver", I: 0}), drain(12))})
 	case "C15":
+		// the origin moves one hop further away, then a late joiner: O0-X1-B2 (B learns O's prefix over 2 hops), O's
+		// uplink moves to Y3 (O0-Y3-X1-B2: B is now exactly max_hops = 3 away), O re-announces (B's entry is refreshed),
+		// C4 joins B. C is 4 hops from O and must not learn O's routes.
+		out = append(out, &Case{Name: "w15-origin-moves-late-joiner", N: 5, Limits: []int{3, 3, 3, 3, 3}, Settle: true,
+			Ops: cat(ops(Op{K: "connect", A: 0, B: 1}, Op{K: "connect", A: 1, B: 2}, cidr(0, 1), ann(0)), drain(6),
+				ops(Op{K: "disconnect", A: 0, B: 1}, Op{K: "connect", A: 0, B: 3}, Op{K: "connect", A: 3, B: 1}), drain(10),
+				ops(Op{K: "advance", D: 10}, ann(0)), drain(10), ops(Op{K: "connect", A: 2, B: 4}), drain(10))})
 		out = append(out, &Case{Name: "w15-chain3-limit1", N: 3, Limits: []int{1, 1, 1}, Settle: true,
 			Ops: cat(chainLinks(3), ops(cidr(0, 1), ann(0)), drain(6))})
 		out = append(out, &Case{Name: "w15-agent-chain4-limit2", N: 4, Limits: []int{2, 2, 2, 2}, UseAgent: true, Settle: true,
@@ -75,6 +92,20 @@ func Witnesses(prop string) []*Case {
 		out = append(out, &Case{Name: "w11-duplicate-after-expiry", N: 3, Limits: make([]int, 3), Settle: true,
 			Ops: cat(chainLinks(3), ops(cidr(0, 1), ann(0), Op{K: "deliver", I: 0, Dup: true}), ops(Op{K: "deliver", I: 1}, Op{K: "advance", D: 451}, Op{K: "deliver", I: 0}), drain(4))})
 	case "C12":
+		// hop limit exactly at the distance: chain of 5 with max_hops 4 (the ends are 4 hops apart) -> everybody learns
+		// everybody; with max_hops 3 everybody except the far end
+		for _, l := range []int{4, 3, 5} {
+			out = append(out, &Case{Name: fmt.Sprintf("w12-chain5-limit%d", l), N: 5, Limits: []int{l, l, l, l, l}, Settle: true,
+				Ops: cat(chainLinks(5), ops(cidr(0, 1), cidr(4, 2), Op{K: "addlocal", A: 4, Kind: KDomain, ID: 1}, ann(0), ann(4), ann(2)), drain(40))})
+		}
+		// the default routing.max_hops = 16 on a chain of 17 real agents (agent.New from config.Default()): the two ends
+		// are exactly 16 hops apart and must learn each other
+		out = append(out, &Case{Name: "w12-agent-chain17-default-limit", N: 17, Limits: make([]int, 17), UseAgent: true, Settle: true,
+			Ops: cat(chainLinks(17), ops(cidr(0, 1), cidr(16, 2), ann(0), ann(16)), drain(80))})
+		// a star with a tail, limit = eccentricity of the tail end
+		out = append(out, &Case{Name: "w12-tree-limit-at-distance", N: 6, Limits: []int{3, 3, 3, 3, 3, 3}, Settle: true,
+			Ops: cat(ops(Op{K: "connect", A: 0, B: 1}, Op{K: "connect", A: 0, B: 2}, Op{K: "connect", A: 0, B: 3}, Op{K: "connect", A: 3, B: 4}, Op{K: "connect", A: 4, B: 5},
+				cidr(1, 1), cidr(5, 2), ann(1), ann(5), ann(2)), drain(60))})
 		out = append(out, &Case{Name: "w12-diamond", N: 4, Limits: make([]int, 4), Settle: true,
 			Ops: cat(ops(Op{K: "connect", A: 0, B: 1}, Op{K: "connect", A: 0, B: 2}, Op{K: "connect", A: 1, B: 3}, Op{K: "connect", A: 2, B: 3},
 				cidr(0, 1), cidr(3, 1), Op{K: "addlocal", A: 3, Kind: KDomain, ID: 1}, ann(0), ann(1), ann(2), ann(3)), drain(40))})
